@@ -392,3 +392,6 @@ def run_print(prop, tier, seed, t0):
     return 1 if nviol else 0
 
 REGISTRY['C18'] = run_print
+
+import c19
+REGISTRY['C19'] = c19.run_c19
